@@ -278,3 +278,16 @@ impl<'a> core::iter::Extend<&'a (f64, f64)> for Covariance {
         }
     }
 }
+
+#[cfg(feature = "verif-hooks")]
+#[doc(hidden)]
+impl Covariance {
+    pub fn __verif_from_parts(
+        avg_x: f64, sum_x_2: f64, avg_y: f64, sum_y_2: f64, sum_prod: f64, n: u64,
+    ) -> Covariance {
+        Covariance { avg_x, sum_x_2, avg_y, sum_y_2, sum_prod, n }
+    }
+    pub fn __verif_parts(&self) -> (f64, f64, f64, f64, f64, u64) {
+        (self.avg_x, self.sum_x_2, self.avg_y, self.sum_y_2, self.sum_prod, self.n)
+    }
+}
